@@ -76,6 +76,8 @@ GNext(g, ev) ==
     [] o.op = "unpause" -> [g1 EXCEPT !.paused = FALSE]
     [] o.op = "list"    -> [g1 EXCEPT !.listed[o.to] = TRUE]
     [] o.op = "unlist"  -> [g1 EXCEPT !.listed[o.to] = FALSE]
+    \* the cap in force is the one set last (a cap below the supply shuts minting until enough is burned)
+    [] o.op = "set_cap" -> [g1 EXCEPT !.cap = o.amt]
     [] OTHER            -> g1
 
 \* the ghost allowance follows the observation when that is lower than approved minus spent
